@@ -358,6 +358,59 @@ def corpus(n_schemas, seed, with_defaults=True, with_services=True):
     return schemas
 
 
+# every kind of default literal of G_thrift, systematically: (shape tag, literal)
+DEFAULT_LITERALS = [
+    ("bool", {"bool": True}), ("bool", {"bool": False}), ("bool", {"int": 1}), ("bool", {"int": 0}),
+    ("i8", lit_int(-128)), ("i8", lit_int(127)), ("i16", lit_int(-32768)), ("i16", lit_int(300)),
+    ("i32", lit_int(2147483647)), ("i32", lit_int(-2147483648)), ("i32", lit_int(0)),
+    ("i64", lit_int(9223372036854775807)), ("i64", lit_int(-9223372036854775807)),
+    ("double", lit_dbl("1.5")), ("double", lit_dbl("-2.5e3")), ("double", lit_dbl("0.1")), ("double", lit_dbl("1e300")),
+    ("double", lit_dbl("1.5e-3")), ("double", {"int": 2}), ("double", {"int": 16777217}), ("double", {"int": 123456789}),
+    ("double", {"int": -9007199254740993}), ("double", {"int": 0}),
+    ("string", lit_str("hi there")), ("string", lit_str("h\u00e9llo w\u00f6rld \u4e16\u754c")), ("string", lit_str("")),
+    ("binary", lit_str("bin")), ("binary", lit_str("")),
+    ("enum", {"enum": "E1.B"}), ("enum", {"enum": "E1.C"}), ("enum", {"int": 5, "as": "enum"}), ("enum", {"int": 300, "as": "enum"}),
+    ("td-i32", lit_int(44)), ("td-str", lit_str("td")), ("td-td-i32", lit_int(-45)), ("td-td-str", lit_str("tdtd")),
+    ("td-list", {"list": [lit_str("p"), lit_str("q")]}), ("td-map", {"map": [[lit_str("k"), lit_int(7)]]}),
+    ("list-i32", {"list": [lit_int(1), lit_int(2)]}), ("list-i32", {"list": []}), ("list-i64", {"list": [lit_int(1099511627776)]}),
+    ("list-double", {"list": [{"int": 16777217}, lit_dbl("2.5")]}), ("list-string", {"list": [lit_str("a"), lit_str("b")]}),
+    ("list-bool", {"list": [{"bool": True}, {"int": 0}]}), ("list-enum", {"list": [{"enum": "E1.A"}, {"int": 300, "as": "enum"}]}),
+    ("list-list-i32", {"list": [{"list": [lit_int(1)]}, {"list": [lit_int(2), lit_int(3)]}, {"list": []}]}),
+    ("set-i32", {"list": [lit_int(3)]}), ("set-string", {"list": [lit_str("x"), lit_str("y")]}),
+    ("map-string-i32", {"map": [[lit_str("k"), lit_int(1)]]}), ("map-string-i32", {"map": []}),
+    ("map-i32-string", {"map": [[lit_int(-1), lit_str("m")], [lit_int(2), lit_str("")]]}),
+    ("map-enum-string", {"map": [[{"enum": "E1.A"}, lit_str("a")]]}),
+    ("map-string-list", {"map": [[lit_str("k"), {"list": [lit_int(1), lit_int(2)]}]]}),
+    ("map-bool-binary", {"map": [[{"bool": True}, lit_str("bb")]]}),
+    ("map-string-map", {"map": [[lit_str("o"), {"map": [[lit_str("i"), lit_int(9)]]}]]}),
+    ("list-map", {"list": [{"map": [[lit_str("a"), lit_int(1)]]}, {"map": []}]}),
+]
+
+
+def defaults_schema():
+    """One schema whose structs carry EVERY default literal kind, each as a default-, optional- and required-requiredness field."""
+    pool = {tag: ty for tag, ty, _ in shape_pool()}
+    defs = base_defs()
+    k = 0
+    names = []
+    for ri, req in enumerate(("default", "optional", "required")):
+        for a in range(0, len(DEFAULT_LITERALS), 3):
+            grp = DEFAULT_LITERALS[a:a + 3]
+            ids = ID_SETS[(a // 3 + ri) % len(ID_SETS)]
+            fields = [{"id": ids[i], "req": req, "ty": pool[tag], "name": f"d{i + 1}", "default": lit} for i, (tag, lit) in enumerate(grp)]
+            # a neighbour without default between them keeps the missing-field paths apart
+            fields.insert(1, {"id": ids[0] + 1000 + k, "req": "optional", "ty": b("i32"), "name": "plain"})
+            name = f"Df{k}"
+            k += 1
+            names.append(name)
+            defs.append({"d": "struct", "name": name, "fields": fields})
+    defs.append({"d": "struct", "name": "DfOuter", "fields": [
+        {"id": 1, "req": "default", "ty": ref(names[0]), "name": "first"},
+        {"id": 2, "req": "optional", "ty": ref(names[len(names) // 2]), "name": "mid"},
+        {"id": 3, "req": "default", "ty": lst(ref(names[-1])), "name": "many"}]})
+    return synthesize({"name": "dfl", "defs": defs})
+
+
 if __name__ == "__main__":
     import sys
     for s in corpus(2, 1):
